@@ -116,6 +116,35 @@ def run_case(case):
         j, tj = decoded[("json", blanks)], decoded[("textgrid_json", blanks)]
         iomodel.compare_data(j, tj, f"json vs textgrid_json (blanks={blanks})", json_single_span=True, check_tier_spans=False, exact=True)
         iomodel.compare_data(a, tj, f"short vs textgrid_json (blanks={blanks})", check_tier_spans=not kw)
+    # save - edit a tier in place (same number of entries) - save again: the second file shows the edit
+    import copy
+    spec2 = copy.deepcopy(spec)
+    edited = False
+    for t2, tier in zip(spec2["tiers"], tg.tiers):
+        if t2["entries"]:
+            k = len(t2["entries"]) // 2
+            old = tier.entries[k]
+            new_label = "edited" if old[-1] != "edited" else "edited2"
+            tier.deleteEntry(old)
+            tier.insertEntry(tuple(old[:-1]) + (new_label,), "error", "silence")
+            t2["entries"][k][-1] = new_label
+            edited = True
+            break
+    if edited:
+        for fmt in FORMATS:
+            what = f"second save({fmt}) after an in-place edit of one label"
+            text = iomodel.save_text(tg, fmt, False, minimumIntervalLength=None, **kw)
+            try:
+                got = tgspec.read_any(text, fmt)
+            except (tgspec.SpecError, ValueError) as e:
+                raise Violation(f"malformed:{fmt}", f"{what}: independent reader: {e}; text={text[:400]!r}")
+            want = iomodel.spec_to_data(spec2)
+            want["xmin"], want["xmax"] = lo, hi
+            try:
+                iomodel.compare_data(got, want, what, json_single_span=(fmt == "json"), check_tier_spans=not kw)
+            except Violation as v:
+                raise Violation(f"stale-after-edit:{v.clause}:{fmt}", v.message)
+        cl.add("saved_edited_saved")
     return {"classes": sorted(cl), "nontrivial": bool(cl & {"quote", "format_token", "gap_filled", "override"})}
 
 
